@@ -418,6 +418,81 @@ def kClean (tol : K) (Kt : Mat (Cx K)) : Mat K :=
 
 end accept
 
+/-! ### object-level semantics: what a solved object holds, what the caller may edit, what a method call reads -/
+section obj
+variable {F : Type}
+
+/-- the caller's argument objects (contents at some moment): the medium (an `ElasticConstants` object), the orientation
+    array, the axes and the Burgers vector.  The caller may edit every one of them in place at any time. -/
+structure Args (F : Type) where
+  C : Ten4 F
+  T : Mat F
+  m : Vec F
+  n : Vec F
+  b : Vec F
+
+/-- a solved `Stroh` object: private COPIES of what `solve()` computed from the arguments as they were then (medium and
+    Burgers vector rotated into the solver frame, the axes) and of the eigen-solution. -/
+structure SObj (F : Type) where
+  s : Setup F
+  μ : Fin 6 → Mode F
+  k : Fin 6 → F
+
+/-- `VolterraDislocation.solve` without the round-off clean-ups: `C.transform(T)`, `T·b`, `m`, `n`. -/
+def Args.setup [Add F] [Mul F] (a : Args F) : Setup F := ⟨rotC a.T a.C, a.m, a.n, matVec a.T a.b⟩
+
+/-- the world of one session: the caller's argument objects, ONE coordinate array that is handed to every call, the
+    solved object. -/
+structure World (F : Type) where
+  args : Args F
+  pos : List (Vec F)
+  obj : SObj F
+
+/-- in-place edits by the caller, between method calls. -/
+inductive Edit (F : Type) where
+  | argC (C : Ten4 F)
+  | argT (T : Mat F)
+  | argM (v : Vec F)
+  | argN (v : Vec F)
+  | argB (v : Vec F)
+  | posSet (i : Nat) (x : Vec F)         -- `pos[i] = x`
+  | posScale (t : F)                      -- `pos *= t`
+  | posShift (d : Vec F)                  -- `pos += d`
+  | posCol (j : Fin 3) (h : F)            -- `pos[:, j] += h`
+  | posAll (l : List (Vec F))             -- `pos[...] = l` / `np.copyto(pos, l)`
+
+def editPos [Add F] [Mul F] : List (Vec F) → Edit F → List (Vec F)
+  | l, .posSet i x => l.set i x
+  | l, .posScale t => l.map fun x c => t * x c
+  | l, .posShift d => l.map fun x c => x c + d c
+  | l, .posCol j h => l.map fun x c => if c = j then x c + h else x c
+  | _, .posAll l' => l'
+  | l, _ => l
+
+def editArgs : Args F → Edit F → Args F
+  | a, .argC C => { a with C := C }
+  | a, .argT T => { a with T := T }
+  | a, .argM v => { a with m := v }
+  | a, .argN v => { a with n := v }
+  | a, .argB v => { a with b := v }
+  | a, _ => a
+
+/-- an edit changes the caller's objects and NEVER the solved object. -/
+def World.edit [Add F] [Mul F] (w : World F) (e : Edit F) : World F :=
+  { w with args := editArgs w.args e, pos := editPos w.pos e }
+
+variable [Add F] [Sub F] [Mul F] [Div F] [Neg F] [NatCast F]
+
+/-- `obj.eta(pos)`, `obj.strain(pos)`, `obj.stress(pos)`, `obj.displacement(pos)` (with the values of `np.log(eta)` as
+    inputs): functions of the solved object and of the CURRENT contents of the array, returning new values. -/
+def World.etas (w : World F) : List (Fin 6 → F) := w.pos.map fun x a => eta w.obj.s (w.obj.μ a) x
+def World.strains (pi I : F) (w : World F) : List (Mat F) := w.pos.map (strainAt pi I w.obj.s w.obj.μ w.obj.k)
+def World.stresses (pi I : F) (w : World F) : List (Mat F) := w.pos.map (stressAt pi I w.obj.s w.obj.μ w.obj.k)
+def World.disps (pi I : F) (w : World F) (logs : List (Fin 6 → F)) : List (Vec F) :=
+  logs.map (dispAt pi I w.obj.s w.obj.μ w.obj.k)
+
+end obj
+
 /-! ### helpers for the driver -/
 
 def vecOfList [Zero F] (l : List F) : Vec F := fun i => l.getD i.val 0
